@@ -152,6 +152,30 @@ fn build(case: &Case) -> Built {
     let ck = pick(case.chrom_sel, chroms.len());
     let mut bad_line: Option<(usize, usize, String)> = None; // chrom, item, replacement line
     let payload = if is_bw { "1.5".to_string() } else { "x".to_string() };
+    // the injection shifts items up by a few bases: a chromosome that reaches the top of the u32
+    // range is moved down first (only when something is injected; valid inputs stay as generated)
+    if case.inject != Inject::None {
+        let lim = u32::MAX - 64;
+        let (_, size, items) = &mut chroms[ck];
+        let top = items.iter().map(|i| i.1.max(i.0)).max().unwrap_or(0).max(*size);
+        if top > lim {
+            let min_s = items.iter().map(|i| i.0.min(i.1)).min().unwrap_or(0);
+            let d = (top - lim).min(min_s);
+            for it in items.iter_mut() {
+                it.0 -= d;
+                it.1 -= d;
+            }
+            *size = size.saturating_sub(d);
+            if top - d > lim {
+                items.retain(|i| i.0 <= lim && i.1 <= lim);
+                *size = (*size).min(lim);
+                if items.is_empty() {
+                    items.push((0, 1, payload.clone()));
+                    *size = (*size).max(2);
+                }
+            }
+        }
+    }
     // helper: insert a bad segment of up to 10 bases after item k of chromosome ck, shifting the rest
     let mut insert_after = |chroms: &mut Vec<(String, u32, Vec<(u32, u32, String)>)>, seg: Vec<(u32, u32)>, bigwig: bool| {
         let (_, size, items) = &mut chroms[ck];
